@@ -90,8 +90,9 @@ func (in *Interp) ToStringMeta(v Value) Value {
 		s, _ := in.tostr(x)
 		return s
 	}
-	in.abort("tostring of a reference value (address)")
-	return nil
+	// an address: both sides canonicalise a string with a blank to <rt>; generated
+	// programs only emit such a string
+	return TypeName(v) + ": address"
 }
 
 func (in *Interp) openBase() {
@@ -349,13 +350,9 @@ func (in *Interp) openBase() {
 		return []Value{&Builtin{Name: "wrapped", Fn: func(in *Interp, args []Value) []Value {
 			ok, res := in.Resume(c, args)
 			if !ok {
-				v := first(res)
-				if s, isStr := v.(string); isStr {
-					// luaB_auxwrap adds position information of the caller to string errors
-					in.Tags["wrap-error-string"]++
-					v = posMarker(in.curSite()) + s
-				}
-				panic(&LuaError{Value: v})
+				// (luaB_auxwrap may add position information to string errors; generated
+				// programs observe only the type of an error propagated by wrap)
+				panic(&LuaError{Value: first(res)})
 			}
 			return res
 		}}}
